@@ -732,14 +732,22 @@ def signatureBinding (s : Sig) (args : List Val) (kwargs : List (String × Val))
       let extras : Dict Val := kws.map (fun kv => (Key.name kv.1, kv.2))
       some (extras.foldl (fun d kv => d.set kv.1 kv.2) (named ++ moved))
 
-/-- `Buildable.__init__`: bind, then `_arguments_set_value` for each entry in order.
-    (`__fn_or_cls__` history entry first; annotation tags are not modelled here.) -/
+/-- The last loop of `Buildable.__init__`: for every parameter whose annotation is
+    `Annotated[..., tag, ...]` (`find_tags_from_annotations`: parameter order, non-empty tag
+    lists only), the tags are ADDED to the tag set stored under the parameter's NAME and one
+    UPDATE_TAGS history entry is logged - which is exactly what `_arguments_set_value` does for
+    a value-less `TaggedValue`. -/
+def annotate (c : Cfg) (ann : List (String × List Nat)) : Cfg :=
+  ann.foldl (fun c nt => c.setValue (.name nt.1) (.tv nt.2 none)) c
+
+/-- `Buildable.__init__`: bind, then `_arguments_set_value` for each entry in order
+    (`__fn_or_cls__` history entry first), then the tags of `Annotated` parameters. -/
 def construct (s : Sig) (args : List Val) (kwargs : List (String × Val)) (ctr : Nat := 0)
-    (tracking : Bool := true) : Option Cfg :=
+    (tracking : Bool := true) (ann : List (String × List Nat) := []) : Option Cfg :=
   match signatureBinding s args kwargs with
   | none => none
   | some d =>
     let c0 : Cfg := ({ ctr := ctr, tracking := tracking } : Cfg).log (.name "__fn_or_cls__") (.val (.v 0))
-    some (d.foldl (fun c kv => c.setValue kv.1 kv.2) c0)
+    some (annotate (d.foldl (fun c kv => c.setValue kv.1 kv.2) c0) ann)
 
 end Fiddle
